@@ -41,11 +41,22 @@ def run(case):
         env[c['name']] = cls
     for cname, mname in case['queries']:
         cls = env[cname]
+        if case.get('first_disabled'):
+            deal.disable()        # the very first lookup of the method (the one that patches it) happens while contracts are disabled
+            try: getattr(cls(), mname, None)
+            except BaseException: pass
+            finally: deal.enable()
         if not hasattr(cls, mname):
             out.append({'line': f'{cname}.{mname}= mro=' + '>'.join(k.__name__ for k in cls.__mro__), 'enforced_first': [], 'enforced_second': [], 'self_first': [], 'self_second': []})
             continue
         all_ids = sorted({cid for c in case['classes'] for _, md in c['methods'] for cid in md['contracts']})
         inst = cls()
+        if case.get('first_disabled'):
+            # the first lookup / call of the method happens while contracts are disabled; afterwards they are enabled again
+            deal.disable()
+            try: getattr(inst, mname)(10**6)
+            except BaseException: pass
+            finally: deal.enable()
         res = {}
         for attempt in (1, 2):
             enforced = []
